@@ -165,24 +165,26 @@ def fill_dist(dist, name, m, bs, rng, mode="random"):
 
 
 def set_dist_to(dist, name, mean, cov):
-    """make q(u) = N(mean, cov) (unbatched) through the raw parameters; used by the
-    prior-fixed-point family.  Returns False if the class cannot represent it."""
-    m = len(mean)
-    mean_t, cov_t = torch.tensor(mean), torch.tensor(cov)
+    """make q(u) = N(mean, cov) through the raw parameters (mean [.., m], cov [.., m, m] with the batch shape of the
+    distribution); used by the optimal-q family.  Returns False if the class cannot represent it."""
+    mean_t, cov_t = torch.as_tensor(mean), torch.as_tensor(cov)
+    m = mean_t.shape[-1]
+    col = mean_t.unsqueeze(-1)
     with torch.no_grad():
         if name == "cholesky":
             dist.variational_mean.copy_(mean_t); dist.chol_variational_covar.copy_(torch.linalg.cholesky(cov_t))
         elif name == "natural":
             P = torch.linalg.inv(cov_t)
-            dist.natural_vec.copy_(P @ mean_t); dist.natural_mat.copy_(-0.5 * P)
+            dist.natural_vec.copy_((P @ col).squeeze(-1)); dist.natural_mat.copy_(-0.5 * P)
         elif name == "trilnatural":
             Lc = torch.linalg.cholesky(cov_t)
-            T = torch.linalg.solve_triangular(Lc, torch.eye(m), upper=False)
-            dist.natural_vec.copy_(torch.linalg.solve(cov_t, mean_t)); dist.natural_tril_mat.copy_(T)
+            T = torch.linalg.solve_triangular(Lc, torch.eye(m).expand_as(Lc), upper=False)
+            dist.natural_vec.copy_(torch.linalg.solve(cov_t, col).squeeze(-1)); dist.natural_tril_mat.copy_(T)
         elif name == "meanfield":
-            if (cov_t - torch.diag(cov_t.diagonal())).abs().max() > 0:
+            dg = cov_t.diagonal(dim1=-2, dim2=-1)
+            if (cov_t - torch.diag_embed(dg)).abs().max() > 0:
                 return False
-            dist.variational_mean.copy_(mean_t); dist._variational_stddev.copy_(cov_t.diagonal().sqrt())
+            dist.variational_mean.copy_(mean_t); dist._variational_stddev.copy_(dg.sqrt())
         else:
             return False
     return True
@@ -257,7 +259,24 @@ def dyv(rng, lo, hi, den=8):
     return rng.randint(int(math.ceil(lo * den)), int(math.floor(hi * den))) / den
 
 
-def gen_case(rng, tier, family):
+BPATS = ["model", "params", "x", "both"]
+
+
+def gen_case(rng, tier, family, batched=False):
+    """batched=True: a batch of sparse GPs in one model.  bshape = the batch shape, bpat = which parts carry it:
+    model = kernel, mean, inducing points and q(u) (shared inputs); params = q(u) only (shared prior, one data set per
+    element); x = the inputs only (one q(u), evaluated on several data sets); both = everything.  The Gaussian
+    likelihood has its own batch shape (lbatch) or is shared; targets always carry the full batch shape."""
+    c = _gen_case(rng, tier, family)
+    if batched:
+        c.update(bshape=rng.choice([[2], [2], [3], [2, 2]] if tier != "quick" else [[2], [2], [3]]),
+                 bpat=rng.choice(BPATS if family == "objective" else ["model", "params", "both"]), lbatch=rng.random() < 0.5)
+        if family == "bound":
+            c["dist"] = rng.choice(["cholesky", "natural", "natural", "trilnatural", "meanfield"])
+    return c
+
+
+def _gen_case(rng, tier, family):
     big = tier != "quick"
     m = rng.choice([2, 2, 3, 3, 4] if not big else [2, 3, 3, 4, 4, 5])
     ntot = rng.randint(3, 6 if not big else 8)
@@ -324,31 +343,46 @@ def prior_targets(b):
     return t
 
 
+def nb_of(shape):
+    return int(np.prod(shape)) if len(shape) else 1
+
+
 def build(case):
     rng = random.Random(case["hseed"])
     torch.manual_seed(case["hseed"] % (2 ** 31))
     b = Built(); b.case = case
     m, ntot, d = case["m"], case["ntot"], case["d"]
-    kern = D14.make_kernel(case["kernel"], d, [], rng)
+    bs = list(case.get("bshape", [])); bp = case.get("bpat", "none") if bs else "none"
+    mb = bs if bp in ("model", "both") else []             # batch shape of kernel / mean / inducing points
+    pb = bs if bp in ("model", "both", "params") else []   # ... of the variational parameters
+    xb = bs if bp in ("x", "both") else []                 # ... of the inputs
+    lb = bs if case.get("lbatch") else []                  # ... of the likelihood
+    b.bs, b.pb, b.nb = bs, pb, nb_of(bs)
+    kern = D14.make_kernel(case["kernel"], d, mb, rng)
     if not case.get("raw"):
         kern = D14.DyadicKernel(kern)
-    mean = D14.make_mean(case["mean"], d, [], rng)
+    mean = D14.make_mean(case["mean"], d, mb, rng)
     pts = D14.points(rng, m + ntot, d)
     Z = torch.tensor(pts[:m]); b.Xall = torch.tensor(pts[m:])
-    b.yall = torch.tensor([dyv(rng, -2, 2) for _ in range(ntot)])
+    if mb:
+        Z = torch.stack([Z + 0.125 * k for k in range(nb_of(mb))]).reshape(*mb, m, d)
+    if xb:
+        b.Xall = torch.stack([b.Xall + 0.0625 * k for k in range(nb_of(xb))]).reshape(*xb, ntot, d)
+    b.yall = torch.tensor([dyv(rng, -2, 2) for _ in range(ntot * b.nb)]).reshape(*bs, ntot)
     if case["lik"] == "gaussian":
-        b.lik = gpytorch.likelihoods.GaussianLikelihood(); b.lik.noise = rng.uniform(0.05, 0.8)
+        b.lik = gpytorch.likelihoods.GaussianLikelihood(batch_shape=torch.Size(lb))
+        b.lik.noise = torch.tensor([rng.uniform(0.05, 0.8) for _ in range(nb_of(lb))]).reshape(*lb, 1) if lb else rng.uniform(0.05, 0.8)
         b.noise_all = None
     else:
-        b.noise_all = torch.tensor([dyv(rng, 0.0625, 0.75, 16) for _ in range(ntot)])
+        b.noise_all = torch.tensor([dyv(rng, 0.0625, 0.75, 16) for _ in range(ntot * nb_of(lb))]).reshape(*lb, ntot)
         b.lik = gpytorch.likelihoods.FixedNoiseGaussianLikelihood(b.noise_all.clone())
-    vd = D14.make_dist(case["dist"], m, [])
+    vd = D14.make_dist(case["dist"], m, pb)
     cls = V.VariationalStrategy if case["strat"] == "vs" else V.UnwhitenedVariationalStrategy
     added = [(a["where"], a["value"]) for a in case.get("added", [])]
     b.model = SVGP(lambda mod: cls(mod, Z, vd, learn_inducing_locations=True, jitter_val=JIT), mean, kern, added)
     b.vs, b.dist = b.model.variational_strategy, vd
     D14.mark_initialized(b.vs)
-    D14.fill_dist(vd, case["dist"], m, [], rng)
+    D14.fill_dist(vd, case["dist"], m, pb, rng)
     if case.get("far"):      # far from the optimum / nearly singular covariance
         with torch.no_grad():
             if case["dist"] == "cholesky":
@@ -362,7 +396,7 @@ def build(case):
             mod.register_prior("verif_prior_%d" % i, make_prior(p["spec"]),
                                (lambda a, g: (lambda mm: g(getattr(mm, a))))(attr, CLOSURE_T[p["closure"]]))
     b.idx = list(case["batch"])
-    b.X = b.Xall[b.idx]; b.y = b.yall[b.idx]
+    b.X = b.Xall[..., b.idx, :]; b.y = b.yall[..., b.idx]
     return b
 
 
@@ -377,31 +411,54 @@ def expected_priors(b):
     return out
 
 
-def noise_vec(b):
+def noise_vec(b, bi=0):
+    """noise variances at the minibatch points for batch element bi"""
     if b.noise_all is None:
-        return [b.lik.noise.item()] * len(b.idx)
-    return b.noise_all[b.idx].tolist()
+        nz = b.lik.noise.detach().reshape(-1)
+        return [nz[bi % nz.numel()].item()] * len(b.idx)
+    na = b.noise_all.reshape(-1, b.noise_all.shape[-1])
+    return na[bi % na.shape[0]][b.idx].tolist()
+
+
+def y_vec(b, bi=0):
+    return b.y.reshape(-1, b.y.shape[-1])[bi].tolist()
 
 
 def objective(b, which, grad=False, scale=False):
-    """mll(model(x_batch), y_batch) in training mode"""
+    """mll(model(x_batch), y_batch) in training mode: a float without batch shape, else the list over batch elements
+    (grad=True: the tensor itself)"""
     b.model.train(); b.lik.train()
     cls = {"elbo": gpytorch.mlls.VariationalELBO, "pll": gpytorch.mlls.PredictiveLogLikelihood}[which]
     mll = cls(b.lik, b.model, num_data=b.case["num_data"], beta=b.case["beta"])
-    kw = {} if b.noise_all is None else dict(noise=b.noise_all[b.idx])
+    kw = {} if b.noise_all is None else dict(noise=b.noise_all[..., b.idx])
     with gs.debug(False):
         if grad:
             return mll(b.model(b.X), b.y, **kw)
         with torch.no_grad():
             v = mll(b.model(b.X), b.y, **kw)
-    return float(v)
+    if not b.bs:
+        return float(v)
+    if tuple(v.shape) != tuple(b.bs):
+        raise ShapeMismatch("objective has shape %s for batch shape %s" % (tuple(v.shape), tuple(b.bs)))
+    return v.reshape(-1).tolist()
+
+
+class ShapeMismatch(Exception):
+    pass
 
 
 def prior_pieces(b):
+    """the implementation's own prior on [Z; X_batch] per batch element: (K [nb][N][N], mu [nb][N])"""
     Z = b.vs.inducing_points.detach()
+    X = b.X
+    sh = torch.broadcast_shapes(Z.shape[:-2], X.shape[:-2])
+    full = torch.cat([Z.expand(*sh, *Z.shape[-2:]), X.expand(*sh, *X.shape[-2:])], -2)
     with torch.no_grad(), gs.debug(False):
-        J = b.model.forward(torch.cat([Z, b.X], -2))
-        return J.covariance_matrix.tolist(), J.mean.tolist()
+        J = b.model.forward(full)
+        K, mu = J.covariance_matrix, J.mean
+    N = K.shape[-1]
+    K = K.expand(*b.bs, N, N).reshape(-1, N, N); mu = mu.expand(*b.bs, N).reshape(-1, N)
+    return K.tolist(), mu.tolist()
 
 
 def root_L(K, m):
@@ -409,48 +466,66 @@ def root_L(K, m):
     return np.linalg.cholesky(A)
 
 
-def elbo_term(b):
+def elbo_terms(b):
+    """one Coq term per batch element"""
     case = b.case
     m, n = case["m"], len(b.idx)
-    K, mu = prior_pieces(b)
-    p1, p2 = D14.dist_params(b.dist, case["dist"], 0)
-    if case["strat"] == "vs":
-        strat, jxx, L = 1, JIT, root_L(K, m).tolist()
-    else:
-        strat, jxx, L = 0, 0.0, [[0.0]]
+    Ks, mus = prior_pieces(b)
     pri = [float(v) for v in expected_priors(b)]
     add = [a["value"] for a in case.get("added", [])]
-    return "CE (%d%%nat, (%d%%nat, %d%%nat), %s, %s, (%s, %s), %d%%nat, %s, %s, %s, %s, %s, (%s, %s), %s, %s)" % (
-        strat, m, n, C.qc_mat(K), C.qc_vec(mu), C.qc_lit(JIT), C.qc_lit(jxx), D14.KIND[case["dist"]], C.qc_vec(p1), C.qc_mat(p2),
-        C.qc_mat(L), C.qc_vec(b.y.tolist()), C.qc_vec(noise_vec(b)), C.qc_lit(case["beta"]), C.qc_lit(case["num_data"]),
-        C.qc_vec(pri) if pri else "(@nil Qc)", C.qc_vec(add) if add else "(@nil Qc)")
+    out = []
+    for bi in range(b.nb):
+        K, mu = Ks[bi], mus[bi]
+        p1, p2 = D14.dist_params(b.dist, case["dist"], bi)
+        if case["strat"] == "vs":
+            strat, jxx, L = 1, JIT, root_L(K, m).tolist()
+        else:
+            strat, jxx, L = 0, 0.0, [[0.0]]
+        out.append("CE (%d%%nat, (%d%%nat, %d%%nat), %s, %s, (%s, %s), %d%%nat, %s, %s, %s, %s, %s, (%s, %s), %s, %s)" % (
+            strat, m, n, C.qc_mat(K), C.qc_vec(mu), C.qc_lit(JIT), C.qc_lit(jxx), D14.KIND[case["dist"]], C.qc_vec(p1), C.qc_mat(p2),
+            C.qc_mat(L), C.qc_vec(y_vec(b, bi)), C.qc_vec(noise_vec(b, bi)), C.qc_lit(case["beta"]), C.qc_lit(case["num_data"]),
+            C.qc_vec(pri) if pri else "(@nil Qc)", C.qc_vec(add) if add else "(@nil Qc)"))
+    return out
 
 
-def unwhitened_moments(b, K):
-    """q(u) as an unwhitened Cholesky parametrisation (mean, lower factor) in float"""
+def elbo_term(b):
+    return elbo_terms(b)[0]
+
+
+def unwhitened_moments(b, K, bi=0):
+    """q(u) of batch element bi as an unwhitened Cholesky parametrisation (mean, lower factor) in float"""
     m = b.case["m"]
     with torch.no_grad():
         q = b.vs.variational_distribution
-        mq = q.mean.detach().numpy().astype(float)
-        Sq = q.covariance_matrix.detach().numpy().astype(float)
+        mq = q.mean.detach().reshape(-1, m)
+        Sq = q.covariance_matrix.detach().reshape(-1, m, m)
+        mq = mq[bi % mq.shape[0]].numpy().astype(float); Sq = Sq[bi % Sq.shape[0]].numpy().astype(float)
     F = np.linalg.cholesky(Sq)
     if b.case["strat"] == "vs":
         L = root_L(K, m)
         with torch.no_grad(), gs.debug(False):
-            mz = b.model.mean_module(b.vs.inducing_points.detach()).numpy()
+            mz = b.model.mean_module(b.vs.inducing_points.detach())
+            mz = mz.expand(*b.bs, m).reshape(-1, m)[bi].numpy()
         return (mz + L @ mq).tolist(), (L @ F).tolist()
     return mq.tolist(), F.tolist()
 
 
-def bound_term(b):
+def bound_terms(b):
     case = b.case
     m, n = case["m"], len(b.idx)
-    K, mu = prior_pieces(b)
-    p1, p2 = unwhitened_moments(b, K)
+    Ks, mus = prior_pieces(b)
     jxx = JIT if case["strat"] == "vs" else 0.0
-    return "CB (%d%%nat, %d%%nat, %s, %s, (%s, %s), 0%%nat, %s, %s, %s, %s)" % (
-        m, n, C.qc_mat(K), C.qc_vec(mu), C.qc_lit(JIT), C.qc_lit(jxx), C.qc_vec(p1), C.qc_mat(p2),
-        C.qc_vec(b.y.tolist()), C.qc_vec(noise_vec(b)))
+    out = []
+    for bi in range(b.nb):
+        p1, p2 = unwhitened_moments(b, Ks[bi], bi)
+        out.append("CB (%d%%nat, %d%%nat, %s, %s, (%s, %s), 0%%nat, %s, %s, %s, %s)" % (
+            m, n, C.qc_mat(Ks[bi]), C.qc_vec(mus[bi]), C.qc_lit(JIT), C.qc_lit(jxx), C.qc_vec(p1), C.qc_mat(p2),
+            C.qc_vec(y_vec(b, bi)), C.qc_vec(noise_vec(b, bi))))
+    return out
+
+
+def bound_term(b):
+    return bound_terms(b)[0]
 
 
 def decode_elbo(r, n):
@@ -467,28 +542,41 @@ def decode_bound(r, m):
     return dict(nelbo=rd.expr(), exact=rd.expr(), collapsed=rd.expr(), nelbo_opt=rd.expr(), mopt=rd.qs(m), Sopt=rd.qmat(m, m))
 
 
-def set_qu(b, mean, cov):
-    """q(u) := N(mean, cov) given in UNWHITENED coordinates"""
+def set_qu(b, means, covs):
+    """q(u) := N(means[bi], covs[bi]) for every batch element, given in UNWHITENED coordinates"""
     case = b.case
     m = case["m"]
-    mean = np.array(mean, dtype=float); cov = np.array(cov, dtype=float)
-    if case["strat"] == "vs":
-        K, mu = prior_pieces(b)
-        L = root_L(K, m)
-        Li = np.linalg.inv(L)
-        mean = Li @ (mean - np.array(mu[:m])); cov = Li @ cov @ Li.T
-    cov = (cov + cov.T) / 2
-    return D14.set_dist_to(b.dist, case["dist"], mean.tolist(), cov.tolist())
+    Ks, mus = prior_pieces(b)
+    mm, cc = [], []
+    for bi in range(nb_of(b.pb)):
+        mean = np.array(means[bi], dtype=float); cov = np.array(covs[bi], dtype=float)
+        if case["strat"] == "vs":
+            L = root_L(Ks[bi], m)
+            Li = np.linalg.inv(L)
+            mean = Li @ (mean - np.array(mus[bi][:m])); cov = Li @ cov @ Li.T
+        mm.append(mean); cc.append((cov + cov.T) / 2)
+    return D14.set_dist_to(b.dist, case["dist"], torch.tensor(np.array(mm)).reshape(*b.pb, m),
+                           torch.tensor(np.array(cc)).reshape(*b.pb, m, m))
 
 
 def short(case):
     return {k: case[k] for k in ("family", "strat", "dist", "m", "ntot", "d", "kernel", "mean", "lik", "batch", "beta",
-                                 "num_data", "hseed") if k in case} | dict(npriors=len(case.get("priors", [])),
-                                                                          nadded=len(case.get("added", [])))
+                                 "num_data", "hseed", "bshape", "bpat", "lbatch") if k in case} | dict(
+        npriors=len(case.get("priors", [])), nadded=len(case.get("added", [])))
+
+
+def as_list(v):
+    return v if isinstance(v, list) else [v]
+
+
+def btag(case):
+    """key suffix naming the batch pattern (empty for an unbatched model)"""
+    return (":batch-" + case["bpat"]) if case.get("bshape") else ""
 
 
 def ngd_step_value(case):
-    """one natural-gradient step of size one on the full-batch ELBO from the case's q(u); returns N * ELBO afterwards"""
+    """one natural-gradient step of size one on the full-batch ELBO (summed over the batch of models: the elements have
+    separate variational parameters) from the case's q(u); returns N * ELBO afterwards, per batch element"""
     b = build(dict(case, dist="natural"))
     b.model.train(); b.lik.train()
     N = case["num_data"]
@@ -496,11 +584,11 @@ def ngd_step_value(case):
     opt = gpytorch.optim.NGD(b.model.variational_parameters(), num_data=N, lr=1.0)
     opt.zero_grad()
     with gs.debug(False):
-        loss = -mll(b.model(b.X), b.y)
+        loss = -mll(b.model(b.X), b.y).sum()
         loss.backward()
         opt.step()
         with torch.no_grad():
-            return N * float(mll(b.model(b.X), b.y))
+            return [N * float(v) for v in mll(b.model(b.X), b.y).reshape(-1)]
 
 
 def grad_plan(case):
@@ -529,12 +617,17 @@ def grad_plan(case):
 def run(out, ctx):
     tier, seed = ctx["tier"], ctx["seed"]
     rng = random.Random(seed * 104729 + 15)
-    nc = dict(objective=70, bound=24, grad=4) if tier == "quick" else dict(objective=700, bound=250, grad=30)
+    nc = dict(objective=54, bound=16, objective_b=12, bound_b=8, grad=4) if tier == "quick" else \
+        dict(objective=600, bound=200, objective_b=150, bound_b=80, grad=30)
     nc = {k: max(1, int(v * ctx.get("scale", 1.0))) for k, v in nc.items()}   # scale < 1 only in builder sensitivity runs
     cases = [gen_case(rng, tier, fam) for fam in ("objective", "bound") for _ in range(nc[fam])]
+    cases += [gen_case(rng, tier, fam, batched=True) for fam in ("objective", "bound") for _ in range(nc[fam + "_b"])]
     grads = [gen_case(rng, tier, "grad") for _ in range(nc["grad"])]
-    for k, c in enumerate([c for c in cases if c["family"] == "bound"]):
-        c["strat"] = STRATS[k % len(STRATS)]          # both strategies in every run, whatever the sample size
+    for batched in (False, True):
+        for k, c in enumerate([c for c in cases if c["family"] == "bound" and bool(c.get("bshape")) == batched]):
+            c["strat"] = STRATS[k % len(STRATS)]          # both strategies in every run, whatever the sample size
+            if batched:
+                c["bpat"] = ["model", "params", "both"][(k // 2) % 3]
     out.rule = ("SVGP models: {VariationalStrategy (whitened), UnwhitenedVariationalStrategy} x {Cholesky, MeanField, Natural, "
                 "TrilNatural, Delta} q(u) with random parameters, inducing 2..%d, data 3..%d, 4 kernels x 3 means, Gaussian / "
                 "fixed-noise (noise= passed per minibatch) likelihoods; objective family: random minibatch subsets (B=1..4), declared "
@@ -542,7 +635,11 @@ def run(out, ctx):
                 "lengthscale/outputscale/noise/mean constant, 0-2 added-loss terms on the model or the kernel; VariationalELBO "
                 "and PredictiveLogLikelihood both compared.  bound family: full batch, beta=1: N*ELBO(q) vs model, "
                 "N*ELBO <= exact log marginal likelihood, collapsed bound <= exact, ELBO(q*) = collapsed bound (q* set in the "
-                "implementation), one NGD step of size one from the random q lands on the collapsed bound.  non-trivial = every "
+                "implementation), one NGD step of size one from the random q lands on the collapsed bound.  BATCHED models (a batch of "
+                "sparse GPs in one ApproximateGP, batch shapes (2), (3), thorough also (2,2)): the batch shape on kernel+mean+inducing points+q(u) / on q(u) only / on the inputs "
+                "only / on everything, Gaussian likelihood batched or shared, one target vector per element; objective, KL pieces, bounds, q* and the NGD step (on the "
+                "summed objective) are checked for EVERY batch element against its own dense problem; log priors are the total over all "
+                "parameter entries of the model (as the unbatched definition; the same scalar enters every batch element).  non-trivial = every "
                 "case (q(u) is random, never the prior)" % (4 if tier == "quick" else 5, 6 if tier == "quick" else 8))
     out.extra["tolerances"] = {"objective": TOL, "bound slack": 1e-8, "ELBO(q*) / NGD step vs collapsed bound": 1e-6,
                                 "gradient": "rtol %g atol %g, h=%g" % (GRAD_RTOL, GRAD_ATOL, GRAD_H)}
@@ -550,11 +647,13 @@ def run(out, ctx):
     for ci, case in enumerate(cases):
         try:
             b = build(case)
-            coq.append(elbo_term(b)); owner.append(("elbo", ci, None))
+            for bi, t in enumerate(elbo_terms(b)):
+                coq.append(t); owner.append(("elbo", ci, bi))
             if case["family"] == "bound":
-                coq.append(bound_term(b)); owner.append(("bound", ci, None))
+                for bi, t in enumerate(bound_terms(b)):
+                    coq.append(t); owner.append(("bound", ci, bi))
         except Exception as e:  # noqa: BLE001
-            out.fail("impl-exception:build:%s:%s:%s" % (case["strat"], case["dist"], type(e).__name__),
+            out.fail("impl-exception:build:%s:%s:%s%s" % (case["strat"], case["dist"], type(e).__name__, btag(case)),
                      "constructing the model / reading its prior raised %r" % e, dict(case=case))
             b = None
         built.append(b)
@@ -575,85 +674,105 @@ def run(out, ctx):
             continue
         n = len(b.idx)
         desc = short(case)
+        bt = btag(case)
         tag = "%s:%s" % (case["strat"], case["dist"])
-        d = decode_elbo(dec[("elbo", ci)][0][1], n)
-        out.case(desc, True, label="%s:%s" % (case["family"], case["strat"]))
+        ds = [decode_elbo(r, n) for _, r in sorted(dec[("elbo", ci)], key=lambda t: t[0])]
+        out.case(desc, True, label="%s:%s%s" % (case["family"], case["strat"], ":batched" if bt else ""))
         out.count("dist=" + case["dist"]); out.count("lik=" + case["lik"]); out.count("beta=%g" % case["beta"])
         out.count("B=%d" % n); out.count("num_data%sB" % ("==" if case["num_data"] == n else "!="))
-        if d is None:
+        out.count("batch=%s" % (("%s:%s" % ("x".join(map(str, case["bshape"])), case["bpat"])) if bt else "none"))
+        if any(d is None for d in ds):
             out.fail("model:rejects:%s" % tag, "the model could not evaluate the case (singular matrix)", dict(case=case))
             continue
         for which, cls in (("elbo", "VariationalELBO"), ("pll", "PredictiveLogLikelihood")):
             try:
-                v = objective(build(case), which)
+                vs = as_list(objective(build(case), which))
             except Exception as e:  # noqa: BLE001
-                out.fail("impl-exception:%s:%s:%s" % (which, tag, type(e).__name__), "implementation raised %r" % e,
+                out.fail("impl-exception:%s:%s:%s%s" % (which, tag, type(e).__name__, bt), "implementation raised %r" % e,
                          dict(case=case, which=which))
                 continue
-            if not C.close(v, d[which], TOL, TOL):
-                key = "%s:%s:%s%s%s" % (which, tag, "minibatch" if case["num_data"] != n else "fullbatch",
-                                        ":priors" if case.get("priors") else "", ":added" if case.get("added") else "")
-                out.fail(key, "%s differs from its definition" % cls, dict(case=case, which=which), impl=v, model=float(d[which]))
+            for bi, (v, d) in enumerate(zip(vs, ds)):
+                if not C.close(v, d[which], TOL, TOL):
+                    key = "%s:%s:%s%s%s%s" % (which, tag, "minibatch" if case["num_data"] != n else "fullbatch",
+                                              ":priors" if case.get("priors") else "", ":added" if case.get("added") else "", bt)
+                    out.fail(key, "%s differs from its definition" % cls, dict(case=case, which=which, batch_element=bi),
+                             impl=v, model=float(d[which]))
+                    break
         if case["family"] == "objective":
             # combine_terms=False returns the scaled pieces: (log_likelihood, kl, log_prior[, added_loss])
             try:
                 bb = build(case)
                 bb.model.train(); bb.lik.train()
                 mll2 = gpytorch.mlls.VariationalELBO(bb.lik, bb.model, num_data=case["num_data"], beta=case["beta"], combine_terms=False)
-                kw = {} if bb.noise_all is None else dict(noise=bb.noise_all[bb.idx])
+                kw = {} if bb.noise_all is None else dict(noise=bb.noise_all[..., bb.idx])
                 with torch.no_grad(), gs.debug(False):
-                    parts = [float(t) for t in mll2(bb.model(bb.X), bb.y, **kw)]
-                want_kl = case["beta"] * float(d["kl"]) / case["num_data"]
+                    tparts = [torch.as_tensor(t) for t in mll2(bb.model(bb.X), bb.y, **kw)]
+                sh = torch.broadcast_shapes(*[t.shape for t in tparts])
+                ok = len(tparts) == (4 if case.get("added") else 3) and tuple(sh) == tuple(bb.bs)
                 want_pri = float(sum(expected_priors(bb), mp.mpf(0))) / case["num_data"]
                 want_add = float(sum(a["value"] for a in case.get("added", [])))
-                ok = len(parts) == (4 if case.get("added") else 3) and C.close(parts[1], want_kl, TOL, TOL) \
-                    and C.close(parts[2], want_pri, TOL, TOL) and (len(parts) < 4 or C.close(parts[3], want_add, TOL, TOL)) \
-                    and C.close(parts[0] - parts[1] + parts[2] - (parts[3] if len(parts) > 3 else 0.0), d["elbo"], TOL, TOL)
-                if not ok:
-                    out.fail("elbo-terms:%s" % tag, "combine_terms=False pieces are not (sum ell / B, beta KL / N, log priors / N, added)",
-                             dict(case=case, which="elbo"), impl=parts, model=[want_kl, want_pri, want_add, float(d["elbo"])])
+                for bi, d in enumerate(ds):
+                    if not ok:
+                        break
+                    parts = [float(t.expand(sh).reshape(-1)[bi]) for t in tparts]
+                    want_kl = case["beta"] * float(d["kl"]) / case["num_data"]
+                    ok = C.close(parts[1], want_kl, TOL, TOL) \
+                        and C.close(parts[2], want_pri, TOL, TOL) and (len(parts) < 4 or C.close(parts[3], want_add, TOL, TOL)) \
+                        and C.close(parts[0] - parts[1] + parts[2] - (parts[3] if len(parts) > 3 else 0.0), d["elbo"], TOL, TOL)
+                    if not ok:
+                        out.fail("elbo-terms:%s%s" % (tag, bt), "combine_terms=False pieces are not (sum ell / B, beta KL / N, log priors / N, added)",
+                                 dict(case=case, which="elbo", batch_element=bi), impl=parts, model=[want_kl, want_pri, want_add, float(d["elbo"])])
+                if not ok and (len(tparts) != (4 if case.get("added") else 3) or tuple(sh) != tuple(bb.bs)):
+                    out.fail("elbo-terms:shape:%s%s" % (tag, bt), "combine_terms=False returns %d pieces of joint shape %s" % (len(tparts), tuple(sh)),
+                             dict(case=case, which="elbo"))
             except Exception as e:  # noqa: BLE001
-                out.fail("impl-exception:elbo-terms:%s:%s" % (tag, type(e).__name__), "implementation raised %r" % e,
+                out.fail("impl-exception:elbo-terms:%s:%s%s" % (tag, type(e).__name__, bt), "implementation raised %r" % e,
                          dict(case=case, which="elbo"))
         if case["family"] != "bound":
             continue
-        # ---- bound statements, evaluated on the real code (TESTS)
-        bd = decode_bound(dec[("bound", ci)][0][1], case["m"])
-        if bd is None:
+        # ---- bound statements, evaluated on the real code (TESTS), for every batch element
+        bds = [decode_bound(r, case["m"]) for _, r in sorted(dec[("bound", ci)], key=lambda t: t[0])]
+        if any(bd is None for bd in bds):
             out.fail("model:rejects:bound:%s" % tag, "the model could not evaluate the bound case", dict(case=case))
             continue
         N = case["num_data"]
-        out.case(dict(desc, check="bound"), True, label="bound-checks")
-        nel = N * objective(build(case), "elbo")
-        exact, coll, nopt = float(bd["exact"]), float(bd["collapsed"]), float(bd["nelbo_opt"])
-        if not C.close(nel, bd["nelbo"], 1e-7, 1e-8):
-            out.fail("bound:nelbo:%s" % tag, "N*ELBO differs from the dense full-batch value", dict(case=case, which="bound"),
-                     impl=nel, model=float(bd["nelbo"]))
-        if nel > exact + 1e-8 * (1 + abs(exact)):
-            out.fail("bound:elbo-exceeds-mll:%s" % tag, "N * full-batch ELBO exceeds the exact log marginal likelihood",
-                     dict(case=case, which="bound"), impl=nel, model=exact)
-        if coll > exact + 1e-9 * (1 + abs(exact)) or nel > coll + 1e-8 * (1 + abs(coll)):
-            out.fail("bound:collapsed-order:%s" % tag, "ordering N*ELBO(q) <= collapsed bound <= exact MLL violated",
-                     dict(case=case, which="bound"), impl=[nel, coll, exact])
-        if abs(nopt - coll) > 1e-9 * (1 + abs(coll)):
-            out.fail("model:optimal-q", "in the exact model ELBO(q*) != collapsed bound (%.12g vs %.12g)" % (nopt, coll),
-                     dict(case=case, which="bound"), no_input=True)
-        # q(u) := q* in the implementation
+        out.case(dict(desc, check="bound"), True, label="bound-checks" + (":batched" if bt else ""))
+        nels = [N * v for v in as_list(objective(build(case), "elbo"))]
+        for bi, (nel, bd) in enumerate(zip(nels, bds)):
+            exact, coll, nopt = float(bd["exact"]), float(bd["collapsed"]), float(bd["nelbo_opt"])
+            info = dict(case=case, which="bound", batch_element=bi)
+            if not C.close(nel, bd["nelbo"], 1e-7, 1e-8):
+                out.fail("bound:nelbo:%s%s" % (tag, bt), "N*ELBO differs from the dense full-batch value", info,
+                         impl=nel, model=float(bd["nelbo"]))
+            if nel > exact + 1e-8 * (1 + abs(exact)):
+                out.fail("bound:elbo-exceeds-mll:%s%s" % (tag, bt), "N * full-batch ELBO exceeds the exact log marginal likelihood",
+                         info, impl=nel, model=exact)
+            if coll > exact + 1e-9 * (1 + abs(exact)) or nel > coll + 1e-8 * (1 + abs(coll)):
+                out.fail("bound:collapsed-order:%s%s" % (tag, bt), "ordering N*ELBO(q) <= collapsed bound <= exact MLL violated",
+                         info, impl=[nel, coll, exact])
+            if abs(nopt - coll) > 1e-9 * (1 + abs(coll)):
+                out.fail("model:optimal-q", "in the exact model ELBO(q*) != collapsed bound (%.12g vs %.12g)" % (nopt, coll),
+                         info, no_input=True)
+        colls = [float(bd["collapsed"]) for bd in bds]
+        # q(u) := q* in the implementation (every batch element its own q*)
         b2 = build(case)
-        if set_qu(b2, [float(v) for v in bd["mopt"]], [[float(v) for v in r] for r in bd["Sopt"]]):
-            v2 = N * objective(b2, "elbo")
-            if abs(v2 - coll) > 1e-6 * (1 + abs(coll)):
-                out.fail("bound:optimal-q:%s" % tag, "with q(u) = exact posterior over u, N*ELBO is not the collapsed bound",
-                         dict(case=case, which="bound"), impl=v2, model=coll)
+        if set_qu(b2, [[float(v) for v in bd["mopt"]] for bd in bds], [[[float(v) for v in r] for r in bd["Sopt"]] for bd in bds]):
+            for bi, (v2, coll) in enumerate(zip([N * v for v in as_list(objective(b2, "elbo"))], colls)):
+                if abs(v2 - coll) > 1e-6 * (1 + abs(coll)):
+                    out.fail("bound:optimal-q:%s%s" % (tag, bt), "with q(u) = exact posterior over u, N*ELBO is not the collapsed bound",
+                             dict(case=case, which="bound", batch_element=bi), impl=v2, model=coll)
+                    break
         # one NGD step of size one reaches the optimum
         try:
-            v3 = ngd_step_value(case)
-            out.case(dict(desc, check="ngd"), True, label="ngd-step")
-            if abs(v3 - coll) > 1e-6 * (1 + abs(coll)):
-                out.fail("bound:ngd-step:%s" % case["strat"], "one natural-gradient step of size one does not land on the collapsed bound",
-                         dict(case=case, which="ngd"), impl=v3, model=coll)
+            v3s = ngd_step_value(case)
+            out.case(dict(desc, check="ngd"), True, label="ngd-step" + (":batched" if bt else ""))
+            for bi, (v3, coll) in enumerate(zip(v3s, colls)):
+                if abs(v3 - coll) > 1e-6 * (1 + abs(coll)):
+                    out.fail("bound:ngd-step:%s%s" % (case["strat"], bt), "one natural-gradient step of size one does not land on the collapsed bound",
+                             dict(case=case, which="ngd", batch_element=bi), impl=v3, model=coll)
+                    break
         except Exception as e:  # noqa: BLE001
-            out.fail("impl-exception:ngd:%s:%s" % (case["strat"], type(e).__name__), "NGD step raised %r" % e, dict(case=case, which="ngd"))
+            out.fail("impl-exception:ngd:%s:%s%s" % (case["strat"], type(e).__name__, bt), "NGD step raised %r" % e, dict(case=case, which="ngd"))
     # ---- gradients
     for gi, case in enumerate(grads):
         vals = {}
@@ -685,12 +804,14 @@ def replay(path):
     info = d["case"]; case = info["case"]; which = info.get("which", "elbo")
     b = build(case)
     if which in ("elbo", "pll"):
-        r = C.coq_run_cases("C15_replay", IMPORTS, RUN_DEF, [elbo_term(b)])[0]
-        dd = decode_elbo(r, len(b.idx))
-        v = objective(build(case), which)
-        print(which, "impl", v, "model", float(dd[which]))
-        print("model q(f) mean", [float(x) for x in dd["mean"]], "var", [float(x) for x in dd["var"]], "KL", float(dd["kl"]))
-        bad = not C.close(v, dd[which], TOL, TOL)
+        rs = C.coq_run_cases("C15_replay", IMPORTS, RUN_DEF, elbo_terms(b))
+        vs = as_list(objective(build(case), which))
+        bad = False
+        for bi, (r, v) in enumerate(zip(rs, vs)):
+            dd = decode_elbo(r, len(b.idx))
+            print("batch element", bi, which, "impl", v, "model", float(dd[which]))
+            print("  model q(f) mean", [float(x) for x in dd["mean"]], "var", [float(x) for x in dd["var"]], "KL", float(dd["kl"]))
+            bad = bad or not C.close(v, dd[which], TOL, TOL)
     elif which == "grad":
         bad = False
         for ent in grad_plan(case):
@@ -701,18 +822,20 @@ def replay(path):
                 print("autograd", ent["autograd"], "central difference of the dense objective", fd)
                 bad = not C.close(ent["autograd"], fd, GRAD_ATOL, GRAD_RTOL)
     else:
-        r = C.coq_run_cases("C15_replay", IMPORTS, RUN_DEF, [bound_term(b)])[0]
-        bd = decode_bound(r, case["m"])
+        rs = C.coq_run_cases("C15_replay", IMPORTS, RUN_DEF, bound_terms(b))
+        bds = [decode_bound(r, case["m"]) for r in rs]
         N = case["num_data"]
-        nel = N * objective(build(case), "elbo")
-        print("N*ELBO impl", nel, "model", float(bd["nelbo"]), "exact MLL", float(bd["exact"]), "collapsed", float(bd["collapsed"]),
-              "model ELBO(q*)", float(bd["nelbo_opt"]))
+        nels = [N * v for v in as_list(objective(build(case), "elbo"))]
         b2 = build(case)
-        set_qu(b2, [float(v) for v in bd["mopt"]], [[float(v) for v in r_] for r_ in bd["Sopt"]])
-        v2 = N * objective(b2, "elbo"); v3 = ngd_step_value(case)
-        print("impl N*ELBO at q*", v2, " after one NGD step", v3)
-        coll, exact = float(bd["collapsed"]), float(bd["exact"])
-        bad = (nel > exact + 1e-8 * (1 + abs(exact)) or abs(v2 - coll) > 1e-6 * (1 + abs(coll)) or abs(v3 - coll) > 1e-6 * (1 + abs(coll))
-               or not C.close(nel, bd["nelbo"], 1e-7, 1e-8))
+        set_qu(b2, [[float(v) for v in bd["mopt"]] for bd in bds], [[[float(v) for v in r_] for r_ in bd["Sopt"]] for bd in bds])
+        v2s = [N * v for v in as_list(objective(b2, "elbo"))]; v3s = ngd_step_value(case)
+        bad = False
+        for bi, (bd, nel, v2, v3) in enumerate(zip(bds, nels, v2s, v3s)):
+            print("batch element", bi, "N*ELBO impl", nel, "model", float(bd["nelbo"]), "exact MLL", float(bd["exact"]), "collapsed",
+                  float(bd["collapsed"]), "model ELBO(q*)", float(bd["nelbo_opt"]))
+            print("  impl N*ELBO at q*", v2, " after one NGD step", v3)
+            coll, exact = float(bd["collapsed"]), float(bd["exact"])
+            bad = bad or (nel > exact + 1e-8 * (1 + abs(exact)) or abs(v2 - coll) > 1e-6 * (1 + abs(coll))
+                          or abs(v3 - coll) > 1e-6 * (1 + abs(coll)) or not C.close(nel, bd["nelbo"], 1e-7, 1e-8))
     print("FAILS" if bad else "agrees")
     return 1 if bad else 0
